@@ -11,6 +11,7 @@ func init() {
 		p := c.Pkg("clone")
 		Rel(c, "R-REL", []*packages.Package{p}, anyDecl, instanceParam, 200)
 		Sanitize(c, "R-SANITIZE", p)
+		InstPath(c, "R-INSTPATH", p, "Clone")
 		CloneFresh(c, "R-FRESH", p, 10)
 	})
 }
